@@ -473,3 +473,59 @@ func TestC14Sizes(t *testing.T) {
 	ev.SetExtra("exhaustive", true)
 	ev.SetExtra("exhaustive_subspaces", fmt.Sprintf("every total wire length of a server-originated transaction from %d to %d bytes in steps of %d (this shard; all shards together: every length)", minWire, maxWire, nsh))
 }
+
+// TestC14Stalled: some clients stop reading altogether while several transactions are queued
+// for each of them (broadcasts); every other client's requests must still be answered, exactly
+// once, while the stalled ones stay stalled.
+func TestC14Stalled(t *testing.T) {
+	ev := evid.New("C14", "TestC14Stalled")
+	defer ev.Flush()
+	rapid.Check(t, func(rt *rapid.T) {
+		n := rapid.IntRange(3, 7).Draw(rt, "clients")
+		nStalled := rapid.IntRange(1, n-2).Draw(rt, "stalled")
+		nBroadcasts := rapid.IntRange(2, 6).Draw(rt, "queuedPerStalledClient")
+		big := rapid.SampledFrom([]int{10, 5000, 40000}).Draw(rt, "broadcastSize")
+		kinds := rapid.SliceOfN(rapid.SampledFrom([]int{hlref.TranKeepAlive, hlref.TranGetUserNameList, hlref.TranGetMsgs, hlref.TranGetFileNameList}), 4, 12).Draw(rt, "requests")
+		inWorld(rt, hlsim.Options{Agreement: "a", Board: strings.Repeat("b", 3000), Accounts: []hlsim.AccountSpec{acct("admin", "Admin", "adminpw", allAccess)}}, func(rt *rapid.T, w *hlsim.World) {
+			var cs []*hlsim.Conn
+			for i := 0; i < n; i++ {
+				cs = append(cs, loginAs(rt, w, fmt.Sprintf("10.14.7.%d:1", i+1), "admin", "adminpw", fmt.Sprintf("c%d", i)))
+			}
+			settle(time.Second)
+			for _, c := range cs {
+				c.TakeInbox()
+			}
+			for i := 0; i < nStalled; i++ {
+				cs[i].SetSlow(1, 1000*time.Hour) // reads one byte, then nothing for the rest of the case
+			}
+			active := cs[nStalled:]
+			for b := 0; b < nBroadcasts; b++ {
+				if r := active[0].Request(hlref.TranUserBroadcast, fld(hlref.FData, bytes.Repeat([]byte{byte('A' + b)}, big))); !okReply(r) {
+					rt.Fatalf("with %d of %d clients not reading and %d broadcasts queued for them: the broadcast request of an active client got no reply", nStalled, n, b)
+				}
+			}
+			for k, typ := range kinds {
+				c := active[k%len(active)]
+				r := c.Request(typ)
+				if r == nil || r.IsReply != 1 {
+					rt.Fatalf("with %d of %d clients not reading (%d transactions of %d bytes queued for each): request %d (type %d) of an active client got no reply", nStalled, n, nBroadcasts, big, k, typ)
+				}
+			}
+			for i, c := range active {
+				got := 0
+				for _, tr := range c.TakeInbox() {
+					if tr.Type == hlref.TranServerMsg {
+						got++
+					}
+				}
+				if c.Bad != nil || c.Partial() != 0 {
+					rt.Fatalf("active client %d: stream not parseable / ends inside a transaction (%v, %d bytes)", i, c.Bad, c.Partial())
+				}
+				if got != nBroadcasts {
+					rt.Fatalf("active client %d received %d of %d broadcasts while %d clients were not reading", i, got, nBroadcasts, nStalled)
+				}
+			}
+		})
+		ev.Case(evid.Hash("stalled", n, nStalled, nBroadcasts, big, fmt.Sprint(kinds)), true, "stalled-clients", fmt.Sprintf("stalled:%d", nStalled))
+	})
+}
